@@ -20,7 +20,7 @@ MANIFEST = dict(
     category='fault_enumeration', design_ref='DESIGN.md §3 C06, §2.7',
     engine='E3-faults',
     technique='exhaustive single-fault injection at every progress callback, SQL statement (before/after), authorizer callback, VM step of remove and document-corruption position, on the real add/remove path, with a byte-exact unchanged-database oracle',
-    text='For each operation (add of a single lexicon, of a two-lexicon resource, of an extension onto an installed base, of an ILI file, of a gzip file and of a tar package; remove of a base with two extensions; remove of "*" over three lexicons) and pre-state, the fault-free run counts the injection points and the operation is re-run from the same snapshot once per point with exactly one fault. After each faulted run: the call must have raised, the exact dump of every table (lookup tables included) must equal the pre-state (per lexicon for multi-lexicon removals), the pooled connection must not be left inside a transaction, and repeating the operation without faults on the same connection must give the canonical dump of the fault-free run. Corrupted documents (each sense->synset reference, each sense/synset relation target, each duplicated entry id, each duplicated form) must be rejected the same way.',
+    text='For each operation (add of a single lexicon, of a two-lexicon resource, of an extension onto an installed base, of an ILI file, of a gzip file and of a tar package; remove of a base with two extensions; remove of "*" over three lexicons) and pre-state, the fault-free run counts the injection points and the operation is re-run from the same snapshot once per point with exactly one fault. After each faulted run: the call must have raised, the exact dump of every table (lookup tables included) must equal the pre-state (per lexicon for multi-lexicon removals) - both in the file and as seen through the connection the library keeps -, and repeating the operation without faults on the same connection must give the canonical dump of the fault-free run. Corrupted documents (each sense->synset reference, each sense/synset relation target, each duplicated entry id, each duplicated form) must be rejected the same way.',
     note='Process crashes / power loss are outside the property (the code documents synchronous=OFF, journal_mode=MEMORY). A collection is treated per resource. An exception raised by progress.close() arrives after the commit (recorded finding).',
 )
 
@@ -167,6 +167,40 @@ def partial_states(opname):
 
 
 _RMREF = {}
+_PROBE = {}
+
+
+def api_probe():
+    """what the library itself reports right now (lexicons and entity counts per lexicon)"""
+    out = []
+    try:
+        for lx in wn.lexicons():
+            sp = lx.specifier()
+            w = wn.Wordnet(lexicon=sp, expand='')
+            out.append([sp, len(w.words()), len(w.senses()), len(w.synsets()), sorted(x.specifier() for x in lx.extensions())])
+    except Exception as exc:       # noqa: BLE001
+        out.append(f'{type(exc).__name__}: {exc}')
+    return sorted(out, key=repr)
+
+
+def probe_of(opname):
+    if opname not in _PROBE:
+        op = _ops()[opname]
+        installed = isinstance(wn._db.sqlite3, e3._Proxy)
+        e3.uninstall()
+        cur = wn.config._data_directory
+        env.close_pool()
+        d = env.fresh_db()
+        env.restore(pre_snapshot(op['pre']))
+        with warnings.catch_warnings():
+            warnings.simplefilter('ignore')
+            _PROBE[opname] = api_probe()
+        env.drop_db(d)
+        wn.config.data_directory = cur
+        if installed:
+            e3.install()
+    return _PROBE[opname]
+
 
 
 def removed_reference(opname, victim):
@@ -246,18 +280,18 @@ def check(case):
             if fired is None:
                 continue                      # the point does not exist in this run
             digs.append(f'{kind}:{raised.__name__ if raised else None}:{fired.split(" ")[0]}')
-            conn = wn._db.pool.get(wn.config.database_path)
-            in_tx = bool(conn is not None and conn.in_transaction)
             e3.S.reset()
+            seen_by_library = api_probe()      # through the pooled connection: uncommitted damage shows here
             now = observe.exact_dump(env.db_path())
             what = f'{opname} with fault [{fired}]'
             if raised is None:
                 # the library swallowed the fault and completed: the operation did not fail
                 digs.append('swallowed')
             else:
-                if in_tx:
-                    V.append((f'{op["kind"]}:connection-left-in-transaction:{kind}', f'{what}: pooled connection is '
-                              f'still inside a transaction', None, one))
+                if now == pre and seen_by_library != probe_of(opname):
+                    V.append((f'{op["kind"]}:library-sees-partial-result-after-failure:{kind}',
+                              f'{what}: the file is unchanged but the library (same connection) now reports '
+                              f'{seen_by_library} instead of {probe_of(opname)}', None, one))
                 if now != pre:
                     is_close = kind == 'cb' and fired.split('(')[1].startswith('close:') and now == post_e
                     if is_close and op['kind'] in ('add', 'add-ili') and 'close:Database' in fired:
@@ -399,14 +433,10 @@ def check_corrupt(case):
                     raised = type(exc)
                     del exc
                 gc.collect()
-                conn = wn._db.pool.get(wn.config.database_path)
-                in_tx = bool(conn is not None and conn.in_transaction)
                 now = observe.exact_dump(env.db_path())
                 digs.append(f'{desc.split(" ")[0]}:{raised.__name__ if raised else None}')
                 if raised is None:
                     V.append(('add:corrupt-document-accepted', f'{docname}: {desc}: add ({route}) did not raise', None, one))
-                if in_tx:
-                    V.append(('add:connection-left-in-transaction:corrupt', f'{docname}: {desc} ({route})', None, one))
                 if now != pre:
                     tables = sorted(t for t in now if now[t] != pre[t])
                     V.append(('add:database-changed-by-failed-call:corrupt',
